@@ -145,6 +145,18 @@ func b2i(b bool) int {
 	return 0
 }
 
+// A caller that reuses one buffer for successive inputs (bufio.Scanner, pooled buffers) is ordinary
+// use: every []byte instantiation of a parser gets its input in this one backing array.
+var reuseBuf = make([]byte, 0, 1<<16)
+
+func reused(in []byte) []byte {
+	if len(in) > cap(reuseBuf) {
+		reuseBuf = make([]byte, 0, 2*len(in))
+	}
+	reuseBuf = append(reuseBuf[:0], in...)
+	return reuseBuf[:len(in):len(in)]
+}
+
 // printable reports whether s can be logged as a JSON string and rebuilt by the
 // specification with ToString and \o (printable ASCII only).
 func printable(s []byte) bool {
